@@ -128,3 +128,111 @@ Proof.
   assert (In l (filter (fun l => memb l (reach h b)) (reach h a))) by (apply filter_In; split; [exact H2|apply memb_In; exact H1]).
   rewrite H in H0. contradiction.
 Qed.
+
+(* ---------- deep copies ---------- *)
+Lemma hlookup_app_cases l news h c : hlookup l (news ++ h) = Some c ->
+  In (l, c) news \/ (hlookup l h = Some c /\ ~ In l (dom news)).
+Proof.
+  induction news as [|[k c'] news IH]; cbn [app hlookup dom map fst].
+  - intros H. right. split; [exact H|intros []].
+  - destruct (Nat.eqb l k) eqn:E.
+    + apply Nat.eqb_eq in E. subst. intros H. inversion H; subst. left. left. reflexivity.
+    + intros H. destruct (IH H) as [Hin | [Hh Hn]]; [left; right; exact Hin|]. right. split; [exact Hh|].
+      intros [C|C]; [apply Nat.eqb_neq in E; congruence|exact (Hn C)].
+Qed.
+
+Lemma hlookup_app_old l news h : ~ In l (dom news) -> hlookup l (news ++ h) = hlookup l h.
+Proof.
+  induction news as [|[k c'] news IH]; cbn [app hlookup dom map fst]; intros H; [reflexivity|].
+  destruct (Nat.eqb l k) eqn:E; [apply Nat.eqb_eq in E; subst; exfalso; apply H; left; reflexivity|].
+  apply IH. intros C. apply H. right. exact C.
+Qed.
+
+Lemma cell_or_empty_data h l es : cell_or_empty h l <> CDict es.
+Proof. unfold cell_or_empty. destruct (hlookup l h) as [[z|es']|]; discriminate. Qed.
+
+Lemma in_combine_snd {X Y} (a : list X) (b : list Y) x y : In (x, y) (combine a b) -> In y b.
+Proof. apply in_combine_r. Qed.
+
+(* every new cell lives at a planned fresh location and a new dictionary only points to planned fresh locations *)
+Lemma copy_dict_cells_fresh h d pl l c : In (l, c) (copy_dict_cells h d pl) ->
+  In l (fst pl :: snd pl) /\ (forall es v, c = CDict es -> In v (map snd es) -> In v (snd pl)).
+Proof.
+  unfold copy_dict_cells. destruct (hlookup d h) as [[z|es0]|].
+  - intros [H|[]]. inversion H; subst. split; [left; reflexivity|]. intros es v E Hv. inversion E; subst. contradiction.
+  - intros [H|H].
+    + inversion H; subst. split; [left; reflexivity|]. intros es v E Hv. inversion E; subst es. clear E.
+      rewrite map_map in Hv. cbn [snd] in Hv. apply in_map_iff in Hv as ([kv n] & <- & Hin). cbn [snd]. apply in_combine_r in Hin. exact Hin.
+    + apply in_map_iff in H as ([kv n] & E & Hin). inversion E; subst. split.
+      * right. apply in_combine_r in Hin. exact Hin.
+      * intros es v Ec. exfalso. exact (cell_or_empty_data h (snd kv) es Ec).
+  - intros [H|[]]. inversion H; subst. split; [left; reflexivity|]. intros es v E Hv. inversion E; subst. contradiction.
+Qed.
+
+Lemma copy_cells_fresh h o f l c : In (l, c) (copy_cells h o f) ->
+  In l (all_fresh f) /\ (forall es v, c = CDict es -> In v (map snd es) -> In v (all_fresh f)).
+Proof.
+  unfold copy_cells, all_fresh. intros [H|H].
+  - inversion H; subst. split; [left; reflexivity|]. intros es v E. exfalso. exact (cell_or_empty_data h (o_data o) es E).
+  - apply in_flat_map in H as ([d pl] & Hdp & Hin). cbn [fst snd] in Hin.
+    apply in_combine_r in Hdp. destruct (copy_dict_cells_fresh h d pl l c Hin) as [H1 H2].
+    assert (Hsub : forall x, In x (fst pl :: snd pl) -> In x (f_data f :: flat_map (fun p => fst p :: snd p) (f_dicts f))).
+    { intros x Hx. right. apply in_flat_map. exists pl. split; [exact Hdp|exact Hx]. }
+    split; [apply Hsub; exact H1|]. intros es v E Hv. apply Hsub. right. exact (H2 es v E Hv).
+Qed.
+
+Lemma dom_copy_cells h o f l : In l (dom (copy_cells h o f)) -> In l (all_fresh f).
+Proof.
+  unfold dom. intros H. apply in_map_iff in H as ([l' c] & E & Hin). cbn in E. subst l'. exact (proj1 (copy_cells_fresh h o f l c Hin)).
+Qed.
+
+(* the copy reaches planned fresh locations only *)
+Lemma deep_copy_reach h o f : (forall l, In l (all_fresh f) -> ~ In l (dom h)) ->
+  forall l, In l (reach (fst (deep_copy h o f)) (snd (deep_copy h o f))) -> In l (all_fresh f).
+Proof.
+  intros Hfresh l Hl. unfold deep_copy in Hl. cbn [fst snd] in Hl. unfold reach in Hl. cbn [o_data o_dicts] in Hl.
+  destruct Hl as [<-|Hl]; [left; reflexivity|]. apply in_app_or in Hl as [Hl|Hl].
+  - apply in_map_iff in Hl as (pl & <- & Hpl). right. apply in_flat_map. exists pl. split; [exact Hpl|left; reflexivity].
+  - apply in_flat_map in Hl as (d & Hd & Hv). unfold dict_values in Hv.
+    destruct (hlookup d (copy_cells h o f ++ h)) as [[z|es]|] eqn:E; try contradiction.
+    destruct (hlookup_app_cases _ _ _ _ E) as [Hin | [Hh Hn]].
+    + exact (proj2 (copy_cells_fresh h o f d (CDict es) Hin) es l eq_refl Hv).
+    + exfalso. apply in_map_iff in Hd as (pl & <- & Hpl).
+      assert (Hf : In (fst pl) (all_fresh f)) by (right; apply in_flat_map; exists pl; split; [exact Hpl|left; reflexivity]).
+      apply (Hfresh (fst pl) Hf). exact (hlookup_in_dom _ _ _ Hh).
+Qed.
+
+(* the source is read exactly as before *)
+Lemma deep_copy_old_lookup h o f : (forall l, In l (all_fresh f) -> ~ In l (dom h)) ->
+  forall l, In l (dom h) -> hlookup l (fst (deep_copy h o f)) = hlookup l h.
+Proof.
+  intros Hfresh l Hl. unfold deep_copy. cbn [fst]. apply hlookup_app_old. intros C. apply dom_copy_cells in C. exact (Hfresh l C Hl).
+Qed.
+
+Lemma flat_map_ext_in' {X Y} (f g : X -> list Y) l : (forall x, In x l -> f x = g x) -> flat_map f l = flat_map g l.
+Proof.
+  induction l as [|a l IH]; intros H; [reflexivity|]. cbn. rewrite (H a) by (left; reflexivity). rewrite IH; [reflexivity|].
+  intros x Hx. apply H. right. exact Hx.
+Qed.
+
+Lemma reach_ext h h' o : (forall l, In l (o_dicts o) -> hlookup l h' = hlookup l h) -> reach h' o = reach h o.
+Proof.
+  intros H. unfold reach. f_equal. f_equal. apply flat_map_ext_in'. intros d Hd. unfold dict_values. rewrite (H d Hd). reflexivity.
+Qed.
+
+Theorem deep_copy_is_independent h o f :
+  well_formed h o = true -> (forall l, In l (all_fresh f) -> ~ In l (dom h)) ->
+  let h' := fst (deep_copy h o f) in let o' := snd (deep_copy h o f) in
+  content h' o = content h o /\ shares h' o' o = [].
+Proof.
+  intros Hwf Hfresh h' o'.
+  assert (Hwf' : forall l, In l (reach h o) -> In l (dom h)).
+  { unfold well_formed in Hwf. rewrite forallb_forall in Hwf. intros l Hl. apply memb_In. exact (Hwf l Hl). }
+  assert (Hold : forall l, In l (reach h o) -> hlookup l h' = hlookup l h).
+  { intros l Hl. apply deep_copy_old_lookup; [exact Hfresh|exact (Hwf' l Hl)]. }
+  split; [apply content_ext; exact Hold|].
+  apply (fresh_object_shares_nothing h h' o' o Hwf).
+  - intros l Hl. rewrite (reach_ext h h' o) in Hl; [exact Hl|].
+    intros d Hd. apply Hold. unfold reach. right. apply in_or_app. left. exact Hd.
+  - intros l Hl. apply Hfresh. exact (deep_copy_reach h o f Hfresh l Hl).
+Qed.
